@@ -263,13 +263,17 @@ def pickStep (zone : String) (best : Option (String × Ring.Inst)) (cand : Strin
 def pickHighest (zone : String) (all : List (String × Ring.Inst)) : Option (String × Ring.Inst) :=
   all.foldl (pickStep zone) none
 
+/-- the healthy owners of a partition in owner-id order, each with its (suffix-stripped) instance id -/
+def multiFound (d : PDesc) (insts : Ring.Desc) (hs : List Bool) (timeout now : Int) (pid : Int) :
+    List (String × Ring.Inst) :=
+  ((ownerIDs d pid).map stripSuffix).filterMap fun id => (healthyInst insts hs timeout now id).map fun i => (id, i)
+
 /-- `MultiPartitionInstanceRing.GetReplicationSetForPartitionAndOperation` -/
 def multiReplSet (d : PDesc) (insts : Ring.Desc) (hs : List Bool) (timeout now : Int) (pid : Int) :
     Except Err (List String × Nat) :=
-  let ids := (ownerIDs d pid).map stripSuffix
-  if ids.isEmpty then .error .emptyRing
+  if ((ownerIDs d pid).map stripSuffix).isEmpty then .error .emptyRing
   else
-    let found := ids.filterMap fun id => (healthyInst insts hs timeout now id).map fun i => (id, i)
+    let found := multiFound d insts hs timeout now pid
     if found.isEmpty then .error .tooManyUnhealthy
     else
       let zones := uniqueZones (found.map (·.2))
